@@ -8,7 +8,13 @@ Tie H: tools/harness/drv_api.c runs init/finalize/keygen/sign/verify of the real
 (--wrap=malloc/free + mp_set_memory_functions, deterministic DRBG): (a) transcripts in a fresh process vs after histories vs
 interleaved keys vs a second process; (b) per-operation leaked blocks compared with the ledger model (every leaked malloc
 block must be a theta `steps` array; the run of the Lean model on the observed chain lengths must predict the live bytes);
-(c) growth of live memory over k signatures; (d) ASan+UBSan on the honest path (valgrind in thorough)."""
+(c) growth of live memory over k signatures; (d) ASan+UBSan on the honest path (valgrind in thorough); (e) the same signature /
+public-key objects verified repeatedly and interleaved with another key (A, A, B, A, B, A-wrong-message, A): verdicts must repeat and
+the objects must be bit-identical before/after each verification (deep image incl. the A24 cache and its flag); (f) failure / retry
+paths: the library's failure-injection hook H2 (find_uv, fixed_degree_isogeny, represent_integer, represent_integer_non_diag) and the
+corpus of DRBG seeds whose first find_uv box fails: live GMP blocks must not grow over identical rounds.
+Tie T (2): tools/translate/retpaths.py -> SqiGen/ReturnPaths.lean (lexical init/finalize balance of every return; theorem
+return_paths_audited)."""
 import hashlib, json, os, re
 import vlib
 
@@ -17,6 +23,7 @@ WRAP = ["-Wl,--wrap=malloc", "-Wl,--wrap=free", "-Wl,--wrap=calloc", "-Wl,--wrap
 K_THETA = "leak:theta_chain_t.steps:malloc-in-theta_chain_comput_*:never-freed"
 K_GMP_SIGN = "leak:protocols_sign:gmp-integers-not-cleared"
 K_UB_RAND = "ub:honest-sign:ibz_rand_interval:shift-exponent-64"
+K_RETRY = "leak:retry-path:%s:gmp-integers-not-cleared"
 
 
 def split(res):
@@ -42,7 +49,15 @@ def search_new_static(ctx):
         cur = set(g.scan(vlib.REPO))
         txt = open(os.path.join(vlib.LEAN, "SqiProps", "C19.lean")).read()
         allow = set(re.findall(r'\("([^"]+)", "([^"]+)", "([^"]+)"\)', txt))
-        return sorted(cur - allow), sorted(allow - cur)
+        new = sorted(cur - allow)
+        try:
+            rp = importlib.import_module("retpaths")
+            curr = set((a, b, str(c), d) for a, b, c, d in rp.scan(vlib.REPO))
+            allowr = set(re.findall(r'\("([^"]+)", "([^"]+)", (\d+), "([^"]*)"\)', txt))
+            new += [("unbalanced-return",) + x for x in sorted(curr - allowr)]
+        except Exception:      # noqa
+            pass
+        return new, sorted(allow - cur)
     except Exception as e:      # noqa
         return [], []
 
@@ -68,7 +83,7 @@ def harness(ctx, exe, step_bytes_expected=None):
     ctx.coverage["sizeof_theta_isogeny_t"] = step
     TA = out_only(oA[1:])
     ctx.case("fresh")
-    if not TA[3].startswith("pk") or TA[4].split()[1] != "1" or TA[5] != "ver 1" or TA[6] != "ver 0":
+    if not TA[3].startswith("pk") or TA[4].split()[1] != "1" or not TA[5].startswith("ver 1") or not TA[6].startswith("ver 0"):
         ctx.violation("c19:honest-path-wrong", "honest keygen/sign/verify did not return (sig ok, verify 1, verify-other-message 0)", dict(ops=A, out=TA))
     ctx.sample(dict(run="fresh", pk=TA[3][:60] + "…", sig=TA[4][:60] + "…"))
     # (D) second process, identical input -> identical transcript incl. ledger numbers
@@ -114,6 +129,53 @@ def harness(ctx, exe, step_bytes_expected=None):
                 ctx.violation("c19:output-depends-on-interleaving", "an operation re-seeded with the same seed gives a different result when operations on another key are interleaved",
                               dict(order1=per[0][1], order2=ops, block=blocks[b], result1=per[0][2][b][:300], result2=res[b][:300]))
                 break
+    # (F) repeated verification of the same objects, interleaved with another key: A, A, B, A, B — verification must not write to
+    #     its inputs (deep image before/after, computed by the driver) and the verdict must not depend on the history
+    F_ops = ["seed " + S1, "init 0", "init 1", "siginit 0", "siginit 1", "keygen 0", "sign 0 0 " + m1, "keygen 1", "sign 1 1 " + m2]
+    seq = [("A", "verify 0 0 " + m1), ("A", "verify 0 0 " + m1), ("B", "verify 1 1 " + m2), ("A", "verify 0 0 " + m1), ("B", "verify 1 1 " + m2),
+           ("A-wrong-msg", "verify 0 0 " + m2), ("A", "verify 0 0 " + m1)]
+    rcF, oF, eF = run_api(exe, F_ops + [q for _, q in seq])
+    TF = out_only(oF[1:])[len(F_ops):]
+    for i, (who, q) in enumerate(seq):
+        ctx.case("repeat-verify:%d:%s" % (i, who))
+        r = TF[i] if i < len(TF) else "<crash>"
+        want = "ver 0" if who.endswith("wrong-msg") else "ver 1"
+        repF = dict(ops=F_ops + [x for _, x in seq[:i + 1]], result=r, how="drv_api level 1 (sqisigndim2): feed the ops; the last line must be `%s img same`" % want)
+        if "img changed" in r:
+            ctx.violation("c19:verify-writes-to-its-inputs", "protocols_verif modifies the signature / public-key object it is given (hidden state in the caller's object)", repF)
+        if not r.startswith(want):
+            ctx.violation("c19:verdict-depends-on-history", "verifying the same (pk, message, signature) objects again gives a different verdict: the result of verification depends on previous calls", repF)
+            break
+    # (G) failure / retry paths must be leak-free: same seed and same objects three times under each failure injection (hook H2) and for the
+    #     DRBG seeds of the corpus whose first find_uv box fails; the number of live GMP blocks must not grow from round 2 to round 3
+    def demo_seed(n):
+        e = bytearray((i * 17 + 3) & 0xff for i in range(48)); e[0:8] = n.to_bytes(8, "little"); return e.hex()
+    scen = [("none", S1, None), ("find_uv:1", S1, "find_uv"), ("fixed_degree_isogeny:1", S1, "fixed_degree_isogeny"),
+            ("represent_integer:1", S1, "represent_integer"), ("represent_integer_non_diag:1", S1, "represent_integer_non_diag"),
+            ("corpus-seed-120(find_uv retry in sign)", demo_seed(120), None), ("corpus-seed-3673(find_uv retry in keygen)", demo_seed(3673), None)]
+    if not ctx.quick:
+        scen += [("corpus-seed-%d" % n, demo_seed(n), None) for n in (1289, 1591, 2203, 3197)] + [("find_uv:2", S1, "find_uv"), ("fixed_degree_isogeny:2", S1, "fixed_degree_isogeny")]
+    retry = {}
+    for name, sd, site in scen:
+        ops = ["init 0", "siginit 0"]
+        for r in range(3):
+            if site:
+                k = name.split(":")[1]
+                ops.append("h2 %s:%s%s" % (site, k, ["", "-" + k, "-" + k + "-"][r]))      # three spellings = three re-armings of the counter
+            ops += ["seed " + sd, "keygen 0", "sign 0 0 " + m1, "verify 0 0 " + m1, "live"]
+        ops += ["h2 off"]
+        rcG, oG, eG = run_api(exe, ops)
+        ctx.case("retry-path:" + name)
+        lives = [int(x.split()[4], 16) for q, x in zip(ops, oG[1:]) if q == "live"]
+        fired = eG.count("verif-h2: fired")
+        retry[name] = dict(gmp_blocks=lives, h2_fired=fired)
+        if len(lives) < 3:
+            ctx.violation("c19:retry-path-crash:" + name.split(":")[0], "keygen/sign crashed on a failure / retry path", dict(ops=ops, stderr=eG[-800:])); continue
+        if lives[2] > lives[1]:
+            key = K_RETRY % name.split(":")[0].split("(")[0]
+            ctx.violation(key, "a failure / retry path of keygen-sign leaves GMP integers allocated: live GMP blocks after rounds 1,2,3 of the same seed on the same objects = %s (scenario %s)" % (lives, name),
+                          dict(ops=ops, gmp_live_blocks=lives, h2_fired=fired, how="drv_api level 1: feed the ops, read the 4th number of each `live` line"))
+    ctx.coverage["retry_paths"] = retry
     # (E) ledger: k signatures on the same objects
     K = 3 if ctx.quick else 12
     ops = ["seed " + S1, "init 0", "siginit 0", "keygen 0", "live"]
@@ -224,7 +286,7 @@ def run(ctx):
                        not [v for v in ctx.violations[nb:] if v["key"].startswith("c19:")], "")
     if not ok and new_static:
         # a dependence on the new static was observed by the harness -> attach the object to that violation; else report it
-        dep = [v for v in ctx.violations if v["key"].startswith("c19:output") or v["key"].startswith("c19:nondet")]
+        dep = [v for v in ctx.violations if v["key"].startswith(("c19:output", "c19:nondet", "c19:verify", "c19:verdict", "leak:retry-path", "c19:leak"))]
         for v in ctx.violations:
             if v["key"].startswith("lake:"):
                 v["replay"]["new_static_objects"] = new_static
